@@ -37,15 +37,15 @@ private:
 
   void push(uint16_t value)
   {
+    sp &= 7;
     stack[sp++] = value;
     sp &= 7;
   }
 
   uint16_t pop()
   {
-    uint16_t value = stack[--sp];
-    sp &= 7;
-    return value;
+    sp = (sp - 1) & 7;
+    return stack[sp];
   }
 
   void set_parity(uint8_t value);
